@@ -67,6 +67,19 @@ theorem lor_192 {x : Int} (h0 : 0 ≤ x) (h1 : x < 64) : lor x 192 = x + 192 := 
   simp only [Int.ofNat_eq_natCast, Int.natCast_add]
   omega
 
+/-- rewrites both sides of the goal into a normal form modulo commutativity / associativity of `+`, `*`,
+    `min`, `max` (so that `a+b` rewritten to `b+a` in the Go source keeps an equivalence proof) -/
+macro "go_ac_norm" : tactic =>
+  `(tactic| try simp only [Int.add_comm, Int.add_left_comm, Int.add_assoc, Int.mul_comm, Int.mul_left_comm,
+        Int.mul_assoc, Int.max_comm, Int.min_comm])
+
+/-- closes `a = b` when the two sides are equal up to that normal form -/
+macro "go_ac_rfl" : tactic => `(tactic| first | rfl | (go_ac_norm; done))
+
+/-- case split on the first `if` of the goal, reduce the other `if`s on the same condition, close by `go_ac_rfl` -/
+macro "go_split" : tactic =>
+  `(tactic| (split <;> rename_i h <;> (try simp only [h, ↓reduceIte]) <;> (try go_ac_rfl)))
+
 /-! ### abstraction between the translator's "list of stores" and the models' byte lists -/
 
 /-- the stores `b[k] = bs[0]; b[k+1] = bs[1]; …` as the translator reports them: (index, byte) pairs -/
